@@ -31,10 +31,10 @@ def validate(prop, k, wt, outdir):
     patch = os.path.join(outdir, "patch%s.diff" % k)
     demo = os.path.join(outdir, "demo%s.rs" % k)
     notes = os.path.join(outdir, "notes.md")
-    sid = "%s-%s" % (prop, k)
+    sid = os.environ.get("SEED_PREFIX", "") + "%s-%s" % (prop, k)
     dest = os.path.join(SEEDED, sid)
     res = dict(id=sid, property=prop, ran=[])
-    tname = "seed_demo_%s_%s" % (prop.lower(), k)
+    tname = "seed_demo_%s_%s" % (sid.lower().replace("-", "_"), k)
     tfile = os.path.join(wt, "tests", tname + ".rs")
 
     def step(name, cmd, cwd=wt):
